@@ -57,6 +57,7 @@ class SFloat:
 class SDateTime:
     us: SInt
     aware: bool
+    folds: Optional[list] = None   # per case of `us`: z3 Bool "fold == 1" (naive local datetimes only)
 
 
 @dataclass
@@ -101,6 +102,8 @@ CONTRACTS = [
     "(%Y %m %d %H %M %S %f; %Y,%m,%d are treated as one composite 'date' field)",
     "datetime.fromisoformat(s.rstrip('Z')) inverts strftime('%Y-%m-%dT%H:%M:%S.%f') on years 1000..9999",
     "dt.replace(tzinfo=timezone.utc): same wall clock, aware UTC",
+    "process time zone (only if the code uses naive local-time operations): standard offset (multiple of 15 min, +-12 h) and one "
+    "fall-back transition; fromtimestamp() sets fold=1 in the repeated hour, arithmetic resets it, astimezone()/timestamp() honour it",
     "dt - dt -> timedelta (exact us); timedelta // timedelta -> floor int; timedelta(microseconds=c)",
     "dt.microsecond: us mod 10**6",
 ]
@@ -140,12 +143,45 @@ def field_terms(us: Any) -> dict[str, Any]:
     }
 
 
-TZOFF = z3.Int("tzoff")   # environment: offset of the process time zone, seconds east of UTC
-TZ_CONSTRAINTS = [TZOFF >= -50400, TZOFF <= 50400, TZOFF % 900 == 0]
+# Environment: the process time zone.  Standard offset TZOFF (seconds east of UTC) and ONE "fall back" transition at the
+# UTC second TZT: before it the offset is TZOFF + 3600 (daylight time), from it on TZOFF.  A transition far away from
+# every instant of interest is the fixed-offset case.  Spring-forward gaps and further transitions are not modelled.
+TZOFF = z3.Int("tzoff")
+TZT = z3.Int("tz_transition_s")
+TZ_CONSTRAINTS = [TZOFF >= -43200, TZOFF <= 43200, TZOFF % 900 == 0, TZT >= 86400, TZT <= 4102444800 + 86400]
+_DST = 3600 * 10**6
+_SPAN = (43200 + 3600) * 10**6
 
 
 def shift(us: SInt, delta: Any, dlo: int, dhi: int) -> SInt:
     return SInt([(g, t + delta, lo + dlo, hi + dhi) for g, t, lo, hi in us.cases])
+
+
+def utc_to_local(us: SInt) -> tuple[SInt, list]:
+    """-> (local wall clock, per-case fold flag) as datetime.fromtimestamp(x) without tz computes it"""
+    T = TZT * 10**6
+    off = TZOFF * 10**6
+    cases, folds = [], []
+    for g, t, lo, hi in us.cases:
+        cases.append((z3.And(g, t < T), t + off + _DST, lo - _SPAN, hi + _SPAN))
+        folds.append(z3.BoolVal(False))
+        cases.append((z3.And(g, t >= T), t + off, lo - _SPAN, hi + _SPAN))
+        folds.append(t < T + _DST)              # second pass through the repeated hour
+    return SInt(cases), folds
+
+
+def local_to_utc(us: SInt, folds: Optional[list]) -> SInt:
+    """naive wall clock (with its fold flags) -> UTC, as .astimezone() / .timestamp() interpret it"""
+    T = TZT * 10**6
+    off = TZOFF * 10**6
+    cases = []
+    for i, (g, t, lo, hi) in enumerate(us.cases):
+        f = folds[i] if folds is not None else z3.BoolVal(False)
+        ambiguous = z3.And(t >= T + off, t < T + off + _DST)
+        use_dst = z3.Or(t < T + off, z3.And(ambiguous, z3.Not(f)))
+        cases.append((z3.And(g, use_dst), t - off - _DST, lo - _SPAN, hi + _SPAN))
+        cases.append((z3.And(g, z3.Not(use_dst)), t - off, lo - _SPAN, hi + _SPAN))
+    return SInt(cases)
 
 
 class Interp:
@@ -502,7 +538,8 @@ class Interp:
                 if tz is None:
                     # naive local wall clock: depends on the process time zone (environment variable TZOFF)
                     self.uses_tz = True
-                    return SDateTime(shift(inst, TZOFF * 10**6, -50400 * 10**6, 50400 * 10**6), False)
+                    loc, folds = utc_to_local(inst)
+                    return SDateTime(loc, False, folds)
                 if not (isinstance(tz, Marker) and tz.name == "datetime.UTC"):
                     raise NotEncodable("fromtimestamp with a tz other than UTC")
                 return SDateTime(inst, True)
@@ -559,6 +596,8 @@ class Interp:
                 if nm == "strftime" and len(args) == 1 and isinstance(args[0], str):
                     fields, z, iso = parse_strftime(args[0])
                     return SPVStr(o.us, fields, z, iso, args[0])
+                if nm == "replace" and set(kw) == {"microsecond"} and o.folds is not None:
+                    raise NotEncodable("replace() on a naive local datetime that may carry fold=1")
                 if nm == "replace" and set(kw) == {"microsecond"} and not args and isinstance(kw["microsecond"], (SInt, int)):
                     mu = kw["microsecond"] if isinstance(kw["microsecond"], SInt) else SInt([(z3.BoolVal(True), z3.IntVal(kw["microsecond"]), kw["microsecond"], kw["microsecond"])])
                     cases = []
@@ -571,7 +610,7 @@ class Interp:
                 if nm == "replace" and set(kw) == {"tzinfo"} and not args:
                     tz = kw["tzinfo"]
                     if isinstance(tz, Marker) and tz.name == "datetime.UTC":
-                        return SDateTime(o.us, True)
+                        return SDateTime(o.us, True)     # same wall clock, now aware: the fold no longer matters for UTC
                     raise NotEncodable("replace(tzinfo=<not UTC>)")
                 if nm == "astimezone" and len(args) + len(kw) == 1:
                     tz = args[0] if args else kw.get("tz")
@@ -580,12 +619,12 @@ class Interp:
                     if o.aware:
                         return o
                     self.uses_tz = True   # a naive datetime is interpreted in the process time zone
-                    return SDateTime(shift(o.us, -TZOFF * 10**6, -50400 * 10**6, 50400 * 10**6), True)
+                    return SDateTime(local_to_utc(o.us, o.folds), True)
                 if nm == "timestamp" and not args:
                     src = o.us
                     if not o.aware:
                         self.uses_tz = True
-                        src = shift(o.us, -TZOFF * 10**6, -50400 * 10**6, 50400 * 10**6)
+                        src = local_to_utc(o.us, o.folds)
                         src = SInt([(z3.And(g, t >= 0), t, max(lo, 0), hi) for g, t, lo, hi in src.cases])
                     cases: list[fp.FCase] = []
                     for g, t, lo, hi in src.cases:
